@@ -75,6 +75,7 @@ type concCase struct {
 	idx     int
 	typ     nbio.ConnType
 	max     int
+	alloc   string
 	calls   []*ccall
 	threads [][]*ccall
 	sched   []int
@@ -88,7 +89,7 @@ func (cc *concCase) replay(extra map[string]interface{}) map[string]interface{} 
 	m := map[string]interface{}{
 		"harness": "connio", "tier": "concurrent", "seed": cc.env.rep.Seed, "case": cc.idx,
 		"rerun":    fmt.Sprintf("build/bin/connio -seed %d -conconly %d -n 0 -real 0 -model build/ocaml/connio/model -out -", cc.env.rep.Seed, cc.idx),
-		"conn":     map[string]interface{}{"type": typName(cc.typ), "MaxWriteBufferSize": cc.max, "OnWrittenSize": "installed; yields to the scheduler twice"},
+		"conn":     map[string]interface{}{"type": typName(cc.typ), "MaxWriteBufferSize": cc.max, "BodyAllocator": cc.alloc, "OnWrittenSize": "installed; yields to the scheduler twice"},
 		"calls":    prog,
 		"schedule": cc.sched,
 		"note":     "threads are goroutines under the cooperative scheduler (overlay verifsched); 'schedule' lists the thread chosen at every scheduling point (every Lock of Conn.mux, every yield of the handler, thread ends); op syntax as in the sequential tier",
@@ -345,6 +346,10 @@ func runConcCase(env *simEnv, idx int) {
 	}
 	cc.max = []int{1000, 4096, 4096, 65536, 65536, 70000, 0}[r.Intn(7)]
 	cc.genCalls(r)
+	al := env.allocs[r.Intn(len(env.allocs))]
+	cc.alloc = al.name
+	env.eng.SetBodyAllocator(al.a)
+	rep.Stat("conc.alloc." + al.name)
 
 	env.eng.SetMaxWriteBufferSize(cc.max)
 	var closeErrs []error
